@@ -266,6 +266,15 @@ theorem rxLine_cniStep (cfg : Cfg) (t : Nat) (s : State) (l : Line) (h : (∃ b,
     · rw [h.1]
     · rw [h.1]
 
+/-- a page line stores the page or does nothing -/
+theorem rxLine_page (cfg : Cfg) (t : Nat) (s : State) (pgno : Nat) :
+    rxLine cfg t s (.page pgno) = (s, []) ∨
+    rxLine cfg t s (.page pgno) = ({ s with cached := if s.cached.contains pgno then s.cached else pgno :: s.cached }, []) := by
+  simp only [rxLine]
+  split
+  · right; rfl
+  · left; rfl
+
 theorem rxWss_keeps (s : State) (b0 b1 t : Nat) :
     (rxWss s b0 b1 t).1.net = s.net ∧ (rxWss s b0 b1 t).1.cached = s.cached ∧ (rxWss s b0 b1 t).1.chswcd = s.chswcd ∧
     (rxWss s b0 b1 t).1.mask = s.mask ∧ (rxWss s b0 b1 t).1.time = s.time ∧
